@@ -191,6 +191,17 @@ def adversaries(rnd, quick):
         # failing upstreams
         for how in ('refuse', 'timeout', 'gaierror', 'unreach'):
             out.append(('%s: upstream connect %s' % (role, how), role, base[:3], how))
+    # bytes that are not UTF-8 where the proxy decodes for its access log (request line, User-Agent, status line)
+    for role, req in reqs.items():
+        if role == 'tunnel':
+            continue
+        line, rest = req.split(b'\r\n', 1)
+        variants = [('User-Agent', line + b'\r\nUser-Agent: \xff\xfe agent\r\n' + rest, resp),
+                    ('status line', req, b'HTTP/1.1 200 \xff\xfe\r\nContent-Length: 2\r\n\r\nok')]
+        if role == 'forward':
+            variants.append(('request path', req.replace(b'/x ', b'/x\xff\xfe '), resp))
+        for what, r_, a_ in variants:
+            out.append(('%s: non-UTF-8 %s, complete exchange, then close' % (role, what), role, [('c', r_), ('u', 1, a_), ('cclose',)], 'accept'))
     # inputs that have stalled the parser before (conflicting repeated length fields)
     for role in ('forward', 'web'):
         for second in (b'0', b'-5'):
